@@ -264,6 +264,20 @@ def lock_crash_scripts(name0):
     return out, n
 
 
+def readonly_scripts(name0):
+    """a handle asked for with read-only access is a handle like any other: as the first one it creates the segment (size as asked, zero-filled),
+    as a later one it sees what the others store; the lock works through it"""
+    out = []
+    n = name0
+    for size in (1, 100, 4096, 5000):
+        n += 1
+        out.append(["P 1 shmnewro 1 %d %d" % (n, size), "P 1 shmsize 1", "P 1 shmr 1 0", "P 2 shmnew 1 %d %d" % (n, size), "P 2 shmsize 1", "P 2 shmw 1 %d 77" % (size - 1),
+                    "P 1 shmr 1 %d" % (size - 1), "P 1 shmlock 1", "A 2 shmlock 1", "T 2", "P 1 shmunlock 1", "W 2", "P 2 shmunlock 1",
+                    "P 3 shmnewro 1 %d 0" % n, "P 3 shmsize 1", "P 3 shmr 1 %d" % (size - 1), "P 3 shmfree 1", "P 2 shmfree 1", "P 1 shmfree 1",
+                    "P 3 shmnew 1 %d %d" % (n, size + 10), "P 3 shmsize 1", "P 3 shmr 1 %d" % (size - 1), "P 3 shmown 1", "P 3 shmfree 1", "obs", "epoch"])
+    return out, n
+
+
 def free_crash_scripts(name0):
     out = []
     n = name0
@@ -317,6 +331,9 @@ def run(ctx):
     fcr, nmax = failing_creation_scripts(nmax)
     for lines in fcr:
         scripts.append(("failcreate", lines, []))
+    ros, nmax = readonly_scripts(nmax)
+    for lines in ros:
+        scripts.append(("readonly", lines, []))
     lcs, nmax = lock_crash_scripts(nmax)
     for lines in lcs:
         scripts.append(("lockcrash", lines, []))
